@@ -45,6 +45,28 @@ static void run_seed(const char *desc, int mode, const uint8_t *body, size_t ble
 		if (nfail > 40 || v_deadline_hit())
 			return;
 	}
+	/* insertions and surplus: 1..8 bytes (00 / ff / a copy of the first trailer bytes) inserted directly in front of the trailer, the
+	 * correct trailer behind them, and 0 / 9 / 40 further bytes behind that (a buffer that continues past the member, e.g. with the
+	 * next member of a concatenated file): the trailer that counts is the one that follows the deflate data */
+	{
+		size_t tl = mode == ISAL_GZIP || mode == ISAL_GZIP_NO_HDR_VER ? 8 : mode == ISAL_DEFLATE ? 0 : 4;
+		if (tl && wl > tl)
+			for (int k = 1; k <= 8; k++)
+				for (int fill = 0; fill < 3; fill++)
+					for (int extra = 0; extra < 3; extra++) {
+						size_t body_end = wl - tl, n = 0, ex = extra == 0 ? 0 : extra == 1 ? 9 : 40;
+						memcpy(m, wbuf, body_end);
+						n = body_end;
+						for (int j = 0; j < k; j++)
+							m[n++] = fill == 0 ? 0x00 : fill == 1 ? 0xff : wbuf[body_end + j % tl];
+						memcpy(m + n, wbuf + body_end, tl);
+						n += tl;
+						for (size_t j = 0; j < ex; j++)
+							m[n++] = (uint8_t)(0x1f + j * 7);
+						snprintf(dd, sizeof dd, "%s %d byte(s) of %s inserted in front of the trailer, %zu bytes appended", d, k, fill == 0 ? "00" : fill == 1 ? "ff" : "trailer-copy", ex);
+						candidate(dd, mode, m, n, 0, seed_no + k, 1);
+					}
+	}
 	v_count("seeds", 1);
 	seed_no++;
 }
